@@ -66,6 +66,9 @@
 (*                          is False (forward reference baked in)          *)
 (*   "cache_fwd_exc"        the failure of an unresolved forward reference *)
 (*                          is memoised                                    *)
+(*   "cacheable_last_child" a hint tree's cacheability is that of the LAST  *)
+(*                          child visited instead of the conjunction over   *)
+(*                          all children (tuple['A', int] becomes cacheable)*)
 (*   "clear_forgets_dedup"  clear_caches() forgets _hint_repr_to_hint      *)
 (*                          (on top of "repr_dedup": the decorated-class   *)
 (*                          path that 0.23.0 gets right must break)        *)
@@ -73,13 +76,13 @@
 EXTENDS Integers, Sequences, FiniteSets, TLC
 
 CONSTANTS Legacy,     \* set of strings, see above
-          Scope,      \* "repr" | "reprT" | "reprD" | "id" | "idT" | "idC" | "fail" | "conf" | "misc" | "all": the slice of the universe explored
+          Scope,      \* "repr" | "reprT" | "reprD" | "id" | "idT" | "idC" | "fail" | "conf" | "misc" | "mix" | "mixB" | "all": the slice of the universe explored
           MaxOps      \* history length bound
 
 (* ---------------------------------------------------------------- universe *)
-InitGen == [A |-> 0, B |-> 0, U |-> -1, D |-> 0]     \* U is undefined at first (forward references)
-MaxGen  == [A |-> 1, B |-> 0, U |-> 0, D |-> 1]
-ClassNames == {"A", "B", "U", "D"}
+InitGen == [A |-> 0, B |-> 0, U |-> -1, D |-> 0, E |-> 0]     \* U is undefined at first (forward references)
+MaxGen  == [A |-> 1, B |-> 0, U |-> 0, D |-> 1, E |-> 0]
+ClassNames == {"A", "B", "U", "D", "E"}      \* E: the class that a SECOND module binds to the name "A"
 Decorated  == {"D"}          \* class D is itself @beartype-decorated: redefining it runs clear_caches()
 
 Dsc(sh, n, sp) == [sh |-> sh, n |-> n, sp |-> sp]
@@ -92,7 +95,17 @@ HD == TLCEval([cA |-> Dsc("cls", "A", 0),  cB |-> Dsc("cls", "B", 0),  cD |-> Ds
        ob |-> Dsc("obj", "-", 0),  fl |-> Dsc("flt", "-", 0),            \* object, float
        b1 |-> Dsc("bad", "-", 0),  bT |-> Dsc("bad", "-", 1),            \* 1, True: not hints at all
        eA0 |-> Dsc("eqv", "A", 0), eA1 |-> Dsc("eqv", "A", 1),          \* Annotated[A, 1] == Annotated[A, True]
-       L1 |-> Dsc("lit", "1", 0),  LT |-> Dsc("lit", "T", 0)])           \* Literal[1] != Literal[True]
+       L1 |-> Dsc("lit", "1", 0),  LT |-> Dsc("lit", "T", 0),            \* Literal[1] != Literal[True]
+       \* multi-child hints mixing an uncacheable child (the forward reference 'A') with cacheable siblings, both orders;
+       \* for forward references sp is the MODULE the question is asked from (0: where A is (re)defined, 1: a second
+       \* module binding the name "A" to its own class E): the hints are equal, what they mean is not
+       xF |-> Dsc("mxF", "A", 0),  xF2 |-> Dsc("mxF", "A", 1),          \* tuple['A', int]            (asked from either module)
+       xL |-> Dsc("mxL", "A", 0),  xM |-> Dsc("mxM", "A", 0),            \* tuple[int, 'A'], tuple[int, 'A', int]
+       xD |-> Dsc("mxD", "A", 0),  xN |-> Dsc("mxN", "A", 0)])           \* dict['A', int], tuple['A', list[int]]
+MixShapes == {"mxF", "mxL", "mxM", "mxD", "mxN"}
+\* per child, in the order the code generator visits them: is that child's check expression cacheable?
+Kids(sh) == CASE sh \in {"mxF", "mxD", "mxN"} -> <<FALSE, TRUE>> [] sh = "mxL" -> <<TRUE, FALSE>> [] sh = "mxM" -> <<TRUE, FALSE, TRUE>>
+RefLikeSh(sh) == sh = "ref" \/ sh \in MixShapes
 
 In(s) == Scope \in s
 BearHDs == CASE In({"repr"})  -> {"lA", "uA0", "uA1", "cA"}
@@ -101,7 +114,10 @@ BearHDs == CASE In({"repr"})  -> {"lA", "uA0", "uA1", "cA"}
              [] In({"fail"})  -> {"rU", "rA", "b1", "bT"}
              [] In({"conf"})  -> {"fl"}
              [] In({"misc"})  -> {"eA0", "eA1", "L1", "LT"}       \* ==-equal spellings, ==-unequal look-alikes
-             [] In({"all"})   -> {"lA", "uA0", "uA1", "cA", "lD", "rU", "rA", "b1", "bT", "fl", "aA", "eA0", "eA1", "L1", "LT"}
+             [] In({"mix"})   -> {"xF", "xF2", "xL", "xM"}
+             [] In({"mixB"})  -> {"xD", "xN"}
+             [] In({"all"})   -> {"lA", "uA0", "uA1", "cA", "lD", "rU", "rA", "b1", "bT", "fl", "aA", "eA0", "eA1", "L1", "LT",
+                                  "xF", "xF2", "xL"}
              [] OTHER         -> {}
 DecoHDs == CASE In({"repr"})  -> {"lA", "uA0"}
              [] In({"reprT"}) -> {"lA"}
@@ -109,7 +125,9 @@ DecoHDs == CASE In({"repr"})  -> {"lA", "uA0"}
              [] In({"fail"})  -> {"rU", "rA", "b1"}
              [] In({"conf"})  -> {"fl"}
              [] In({"misc"})  -> {"eA1"}
-             [] In({"all"})   -> {"lA", "uA0", "lD", "rU", "rA", "fl", "b1", "eA1"}
+             [] In({"mix"})   -> {"xF", "xF2"}
+             [] In({"mixB"})  -> {"xD"}
+             [] In({"all"})   -> {"lA", "uA0", "lD", "rU", "rA", "fl", "b1", "eA1", "xF"}
              [] OTHER         -> {}
 ConfsS  == IF In({"conf", "all"}) THEN {"c0", "c1"} ELSE {"c0"}     \* c1 = BeartypeConf(is_pep484_tower=True)
 SubPairsS == (CASE In({"id", "all"}) -> {<<"cA", "cB">>, <<"cA", "ob">>, <<"ob", "cA">>, <<"cA", "cA">>,
@@ -123,11 +141,11 @@ EqPairsS == CASE In({"id", "all"}) -> {<<"cA", "cB">>, <<"cA", "cA">>, <<"ob", "
               [] OTHER -> {}
 HoldHDs  == CASE In({"id", "all"}) -> {"aA", "cB"} [] In({"idT"}) -> {"aA"} [] OTHER -> {}
 LeHeldHDs == IF In({"id", "idT", "all"}) THEN {"cA"} ELSE {}
-RedefS  == CASE In({"repr", "reprT"}) -> {"A"} [] In({"reprD"}) -> {"D"} [] In({"fail"}) -> {"U", "A"}
+RedefS  == CASE In({"repr", "reprT", "mix", "mixB"}) -> {"A"} [] In({"reprD"}) -> {"D"} [] In({"fail"}) -> {"U", "A"}
              [] In({"all"}) -> {"A", "D", "U"} [] OTHER -> {}
-ClearS  == In({"repr", "reprT", "reprD", "id", "idC", "all"})
-ProbeNames == CASE In({"repr", "reprT", "misc"}) -> {"A"} [] In({"reprD"}) -> {"D"} [] In({"fail"}) -> {"A", "U"}
-                [] In({"all"}) -> {"A", "D", "U"} [] OTHER -> {}
+ClearS  == In({"repr", "reprT", "reprD", "id", "idC", "mix", "mixB", "all"})
+ProbeNames == CASE In({"repr", "reprT", "misc", "mixB"}) -> {"A"} [] In({"reprD"}) -> {"D"} [] In({"fail"}) -> {"A", "U"}
+                [] In({"mix"}) -> {"A", "E"} [] In({"all"}) -> {"A", "D", "U", "E"} [] OTHER -> {}
 MaxFuncs == 2
 
 VARIABLES gen,      \* class name -> current generation (-1: name not defined yet)
@@ -141,26 +159,40 @@ vars == <<gen, tester, raiser, dedup, reprc, sane, expr, wrap, wobj, held, subt,
 
 (* ------------------------------------------------------------ hint values *)
 HintOf(dn) == LET d == HD[dn] IN
-  [sh |-> d.sh, n |-> d.n, sp |-> d.sp, g |-> IF d.n \in ClassNames /\ d.sh # "ref" THEN gen[d.n] ELSE 0]
+  [sh |-> d.sh, n |-> d.n, sp |-> d.sp, g |-> IF d.n \in ClassNames /\ ~RefLikeSh(d.sh) THEN gen[d.n] ELSE 0]
 \* writing list[A] needs the name A to be bound; a string does not
-CanBuild(dn) == LET d == HD[dn] IN IF d.sh = "ref" \/ d.n \notin ClassNames THEN TRUE ELSE gen[d.n] >= 0
+CanBuild(dn) == LET d == HD[dn] IN IF RefLikeSh(d.sh) \/ d.n \notin ClassNames THEN TRUE ELSE gen[d.n] >= 0
 
 HKey(h)  == [sh |-> h.sh, n |-> h.n, g |-> h.g]        \* Python == / hash class
 ReprOf(h) == [sh |-> h.sh, n |-> h.n, sp |-> h.sp]     \* repr(): the generation is invisible
 Hashable(h)    == h.sh # "ann"
 CacheWorthy(h) == h.sh \in {"list", "uni"}             \* is_hint_cacheworthy: PEP 585 builtin subscription, PEP 604 union
 IsHint(h)      == h.sh # "bad"
-ExprCacheable(h) ==                                    \* HintSane.is_check_expr_cacheable
-  Hashable(h) /\ (h.sh # "ref" \/ "cache_uncacheable" \in Legacy)
+RefLike(h)     == RefLikeSh(h.sh)
+\* HintSane.is_check_expr_cacheable / HintTreeCode.is_check_expr_cacheable: a tree is cacheable iff EVERY child is
+\* (hinttreecode.py sanify_hint_child: `&=`); spec mutant "cacheable_last_child": the last child visited decides (`=`)
+ExprCacheable(h) ==
+  Hashable(h) /\
+  (IF h.sh \in MixShapes
+   THEN LET k == Kids(h.sh) IN IF "cacheable_last_child" \in Legacy THEN k[Len(k)] ELSE \A i \in 1..Len(k) : k[i]
+   ELSE h.sh # "ref" \/ "cache_uncacheable" \in Legacy)
+\* the class a forward reference to name n means when asked from module m
+RN(n, m) == IF m = 1 THEN "E" ELSE n
+Resolved(sh, rn, g) == [sh |-> IF sh = "ref" THEN "cls" ELSE "mixr", n |-> rn, g |-> g]
+\* the compiled value of a hint; for a forward reference g holds the module its proxy resolves in
+CV(h) == IF RefLike(h) THEN [sh |-> h.sh, n |-> h.n, g |-> h.sp] ELSE HKey(h)
+NeedsRes(cv) == RefLikeSh(cv.sh)
 
 (* ---------------------------------------- declarative semantics of a hint *)
 TT == [w |-> "T", n |-> "-", g |-> 0]                  \* the one "probe" of boolean answers
-Probes == {[w |-> w, n |-> n, g |-> g] : w \in {"bare", "list"}, n \in ProbeNames, g \in 0..1} \cup
+\* "mix": the container the asking hint describes (tuple / dict ...) holding an instance at the forward reference's place
+Probes == {[w |-> w, n |-> n, g |-> g] : w \in {"bare", "list", "mix"}, n \in ProbeNames, g \in 0..1} \cup
           {[w |-> x, n |-> "-", g |-> 0] : x \in {"none", "int", "true", "float"}}      \* None, 1, True, 1.5
 Exists(p) == p.n \notin ClassNames \/ p.g <= gen[p.n]
 Sat(p, cv, conf) ==
   CASE cv.sh \in {"cls", "ann", "eqv"} -> p.w = "bare" /\ p.n = cv.n /\ p.g = cv.g
     [] cv.sh = "list" -> p.w = "list" /\ p.n = cv.n /\ p.g = cv.g
+    [] cv.sh = "mixr" -> p.w = "mix" /\ p.n = cv.n /\ p.g = cv.g
     [] cv.sh = "uni"  -> (p.w = "bare" /\ p.n = cv.n /\ p.g = cv.g) \/ p.w = "none"
     [] cv.sh = "obj"  -> TRUE
     [] cv.sh = "flt"  -> p.w = "float" \/ (p.w \in {"int", "true"} /\ conf = "c1")       \* bool is an int
@@ -176,11 +208,11 @@ Accepted(cv, conf) == {p \in Probes : Exists(p) /\ Sat(p, cv, conf)}
 Verdicts(cv, conf) ==
   CASE cv.sh = "raise" -> Ans("fwdref", {})
     [] cv.sh = "bad"   -> Ans("nonpep", {})
-    [] cv.sh = "ref"   -> IF gen[cv.n] < 0 THEN Ans("fwdref", {})
-                          ELSE Ans("none", Accepted([sh |-> "cls", n |-> cv.n, g |-> gen[cv.n]], conf))
+    [] NeedsRes(cv)    -> LET rn == RN(cv.n, cv.g) IN
+                          IF gen[rn] < 0 THEN Ans("fwdref", {}) ELSE Ans("none", Accepted(Resolved(cv.sh, rn, gen[rn]), conf))
     [] OTHER -> Ans("none", Accepted(cv, conf))
 \* Fresh(q) for is_bearable / die_if_unbearable / a decorated call: the hint AS WRITTEN, empty tables
-FreshCheck(h, conf) == Verdicts(HKey(h), conf)
+FreshCheck(h, conf) == Verdicts(CV(h), conf)
 
 LeafSub(x, y) == y.sh = "obj" \/ (x.sh = "cls" /\ y.sh = "cls" /\ x.n = y.n /\ x.g = y.g)
 \* Fresh(q) for is_subhint / TypeHint <= on the shapes of SubPairsS (classes are unrelated)
@@ -213,10 +245,11 @@ Coerce(h, dd, rc) ==
 
 \* the value a checker is compiled to; a forward reference stays a reference unless (mutant) it is baked in
 Compiled(h) ==
-  IF h.sh = "ref" /\ "cache_uncacheable" \in Legacy
-  THEN (IF gen[h.n] < 0 THEN [sh |-> IF "cache_fwd_exc" \in Legacy THEN "raise" ELSE "ref", n |-> h.n, g |-> 0]
-        ELSE [sh |-> "cls", n |-> h.n, g |-> gen[h.n]])
-  ELSE HKey(h)
+  IF RefLike(h) /\ ExprCacheable(h)         \* (only under a mutant) a cached checker keeps what its proxy resolved to
+  THEN LET rn == RN(h.n, h.sp) IN
+       (IF gen[rn] < 0 THEN [sh |-> IF "cache_fwd_exc" \in Legacy THEN "raise" ELSE h.sh, n |-> h.n, g |-> h.sp]
+        ELSE Resolved(h.sh, rn, gen[rn]))
+  ELSE CV(h)
 
 \* HintSane(...) then make_check_expr(hint_sane, conf)
 CompileExpr(h, conf, sn, ex) ==
@@ -225,7 +258,7 @@ CompileExpr(h, conf, sn, ex) ==
   IF hit # {} THEN [cv |-> (CHOOSE e \in hit : TRUE).cv, sn |-> sn2, ex |-> ex, hit |-> TRUE]
   ELSE LET cv == Compiled(h) IN
        [cv |-> cv, sn |-> sn2, hit |-> FALSE,
-        ex |-> IF ExprCacheable(h) /\ cv.sh # "ref" THEN ex \cup {[k |-> HKey(h), conf |-> conf, cv |-> cv]} ELSE ex]
+        ex |-> IF ExprCacheable(h) /\ ~NeedsRes(cv) THEN ex \cup {[k |-> HKey(h), conf |-> conf, cv |-> cv]} ELSE ex]
 
 \* make_func_checker(hint, conf, prefix, ..., table)
 DoorChecker(tab, h, conf) ==
@@ -239,7 +272,7 @@ DoorChecker(tab, h, conf) ==
   ELSE LET co == TLCEval(Coerce(h, dedup, reprc))
            ce == TLCEval(CompileExpr(co.h, conf, sane, expr)) IN
        [cv |-> ce.cv, cc |-> conf, dd |-> co.dd, rc |-> co.rc, sn |-> ce.sn, ex |-> ce.ex, hit |-> FALSE, swap |-> co.swap,
-        tab |-> IF Hashable(h) /\ ExprCacheable(co.h) /\ ce.cv.sh # "ref"
+        tab |-> IF Hashable(h) /\ ExprCacheable(co.h) /\ ~NeedsRes(ce.cv)
                 THEN tab \cup {[k |-> HKey(h), conf |-> conf, cv |-> ce.cv]} ELSE tab]
 
 Rec(op, a, b, ret, fresh, judged, hit, stale, swap) ==
@@ -273,14 +306,17 @@ Decorate(dn, conf) ==
           /\ UNCHANGED <<funcs, dedup, reprc, sane, expr>>
      ELSE LET co == TLCEval(Coerce(h, dedup, reprc))
               ce == TLCEval(CompileExpr(co.h, conf, sane, expr)) IN
-          /\ funcs' = Append(funcs, [dn |-> dn, h |-> h, conf |-> conf, cv |-> IF h.sh = "ref" THEN HKey(h) ELSE ce.cv,
-                                     res |-> IF h.sh = "ref" THEN -1 ELSE -2])
+          /\ LET lazy == RefLike(h) /\ ~ExprCacheable(co.h) IN      \* a proxy of the callable's own, resolved at a call
+             funcs' = Append(funcs, [dn |-> dn, h |-> h, conf |-> conf, cv |-> IF lazy THEN CV(h) ELSE ce.cv,
+                                     \* (a name that is bound while decorating is resolved then; only unbound ones wait)
+                                     res |-> IF ~lazy THEN -2
+                                             ELSE IF gen[RN(h.n, h.sp)] >= 0 THEN gen[RN(h.n, h.sp)] ELSE -1])
           /\ dedup' = co.dd /\ reprc' = co.rc /\ sane' = ce.sn /\ expr' = ce.ex
           /\ last' = Rec("decorate", dn, conf, NoAns, NoAns, TRUE, ce.hit, FALSE, co.swap)
   /\ UNCHANGED <<gen, tester, raiser, decreg>> /\ WrapUnch
 
-\* f(probe) for every probe object.  A forward reference is resolved by the callable's proxy at the first call that
-\* needs it and then remembered (_ref_proxy_to_resolved_type).  Whether a callable decorated BEFORE a redefinition
+\* f(probe) for every probe object.  A forward reference that was unbound at decoration is resolved by the callable's
+\* proxy at the first call that needs it and then remembered (_ref_proxy_to_resolved_type).  Whether a callable decorated BEFORE a redefinition
 \* should follow the name or the object is C07's question: such calls are recorded but not judged.
 Call(i) ==
   /\ Step /\ i \in 1..Len(funcs)
@@ -288,11 +324,11 @@ Call(i) ==
      IF f.res = -2
      THEN /\ last' = Rec("call", f.dn, f.conf, Verdicts(f.cv, f.conf), FreshCheck(f.h, f.conf), TRUE, FALSE, FALSE, FALSE)
           /\ UNCHANGED funcs
-     ELSE LET n == f.h.n
+     ELSE LET n == RN(f.h.n, f.h.sp)
               r == IF f.res >= 0 THEN f.res ELSE gen[n] IN
           /\ funcs' = [funcs EXCEPT ![i].res = r]
           /\ last' = Rec("call", f.dn, f.conf,
-                         IF r < 0 THEN Ans("fwdref", {}) ELSE Ans("none", Accepted([sh |-> "cls", n |-> n, g |-> r], f.conf)),
+                         IF r < 0 THEN Ans("fwdref", {}) ELSE Ans("none", Accepted(Resolved(f.h.sh, n, r), f.conf)),
                          FreshCheck(f.h, f.conf), r = gen[n], f.res >= 0, FALSE, FALSE)
   /\ UNCHANGED <<gen, tester, raiser, dedup, reprc, sane, expr, decreg>> /\ WrapUnch
 
